@@ -474,6 +474,8 @@ def is_plain(node):
     k = node.kind
     if k in ("and", "not", "substr"):
         return False
+    if k == "cls" and getattr(node, "lit_range", False):
+        return False
     if k in ("cat", "alt"):
         return all(is_plain(x) for x in node.xs)
     if k == "rep":
@@ -507,6 +509,10 @@ def to_lark(node, top=True):
         key = {"chunks": "substring_chunks", "words": "substring_words", "chars": "substring_chars"}[node.mode]
         val = node.chunks if node.mode == "chunks" else node.src
         return "%%regex { %s: %s }" % (json.dumps(key), json.dumps(val, ensure_ascii=False))
+    if k == "cls" and getattr(node, "lit_range", False):
+        # Lark literal range "a".."z": both end points are single characters, every scalar value in between matches
+        (lo, hi), = node.ranges
+        return "(" + _lark_str(chr(lo)) + ".." + _lark_str(chr(hi)) + ")"
     if k == "casei" and getattr(node, "flag_string", False):
         # Lark string literal with the i flag: the characters are literal, whatever they are
         return _lark_str(node.s) + "i"
@@ -688,8 +694,48 @@ def mark_lark(node, rng):
     return node
 
 
+LIT_RANGES = [(0x61, 0x66), (0x30, 0x39), (0x21, 0x2F), (0x5B, 0x5E), (0xE0, 0xFF), (0x430, 0x44F), (0x3B1, 0x3C9), (0x4E00, 0x4E2D), (0xA1, 0xBF), (0xFF, 0x101),
+              (0x7FE, 0x801), (0xFFFD, 0x10001), (0x1F600, 0x1F64F), (0x41, 0x41), (0xD7FE, 0xD7FF), (0xE000, 0xE001)]
+
+
+def gen_lit_ranges(rng):
+    """a terminal built from Lark literal ranges "x".."y" (ASCII, Latin-1, Cyrillic, Greek, CJK, astral; end points at the UTF-8 length
+    boundaries), combined with Lark-level operators"""
+    def rg():
+        if rng.random() < 0.7:
+            lo, hi = rng.choice(LIT_RANGES)
+        else:
+            lo = rng.choice([0x20, 0x5D, 0xBF, 0x3FF, 0x7FF, 0x800, 0xFFF, 0x2000, 0xFFEE, 0x10000, 0x10FFF0])
+            hi = min(lo + rng.randint(0, 40), 0x10FFFF)
+            if lo <= 0xDFFF and hi >= 0xD800:
+                lo, hi = 0x430, 0x44F
+        n = Cls([(lo, hi)])
+        n.lit_range = True
+        return n
+    form = rng.randint(0, 3)
+    if form == 0:
+        node = Rep(rg(), 1, None)
+    elif form == 1:
+        node = Cat([rg(), Rep(Alt([rg(), Lit(rng.choice(["-", "x", "é"]))]), 0, rng.choice([None, 2]))])
+    elif form == 2:
+        node = Alt([Cat([rg(), rg()]), Lit("q")])
+    else:
+        node = Cat([Lit(rng.choice(["<", "a"])), Rep(rg(), rng.randint(0, 2), rng.randint(2, 3)), Lit(">")])
+
+    def mark(n):
+        if n.kind in ("cat", "alt", "rep"):
+            n.lark = True
+            for x in (n.xs if n.kind != "rep" else [n.x]):
+                mark(x)
+    mark(node)
+    return node
+
+
 def gen_case(rng, idx):
     """returns dict(kind='regex'|'lark', text=..., node=...)"""
+    if rng.random() < 0.08:
+        node = gen_lit_ranges(rng)
+        return dict(kind="lark", text="start: T\nT: %s\n" % to_lark(node), node=node)
     r = rng.random()
     if r < 0.5:
         node = gen_plain(rng)
